@@ -69,6 +69,8 @@ func genHpackTables(repo string) (string, error) {
 //	h2_data_pad_gt / h2_push_pad_gt  frame.go parseDataFrame / parsePushPromise: the pad-length test is `int(pad) > len(rest)` (true) or `>=` (false)
 //	h2_cont_advance             mhttp2.go readMetaFrame: the recursive ReadFrame call reads at `off+msize` (true) or at `off` (false)
 //	h2_client_settings_wakes    mhttp2.go MClientConn.processSettings: contains a call cc.cond.Broadcast()
+//	h2_client_open_atomic       mhttp2.go MClientConn.WriteHeaders: newStream, the HEADERS write and cc.streams[id] = cs happen in ONE cc.mu
+//	                            critical section (Lock + defer Unlock: true) or cc.mu is unlocked in between (false)
 //	h2_client_settings_validated mhttp2.go MClientConn.processSettings: calls s.Valid() on every setting
 //	h2_winupd_wakes_always      mhttp2.go MServerConn/MClientConn.processWindowUpdate: cond.Broadcast() is a top-level statement of both bodies (true) or nested in an `if` in both (false)
 //	h2_write_chunk              mhttp2.go MFramer.writeData: const maxFrameSize
@@ -286,6 +288,57 @@ func genH2Src(repo string) (string, error) {
 		ok = false
 	}
 	fmt.Fprintf(&b, "Definition h2_winupd_wakes_always := %v.\n", wuAlways)
+	// --- MClientConn.WriteHeaders: one critical section?
+	openAtomic := ""
+	if fd := FindFunc(mf, "MClientConn", "WriteHeaders"); fd != nil {
+		isMuUnlock := func(c *ast.CallExpr) bool {
+			sel, isSel := c.Fun.(*ast.SelectorExpr)
+			if !isSel || sel.Sel.Name != "Unlock" {
+				return false
+			}
+			in, isIn := sel.X.(*ast.SelectorExpr)
+			return isIn && in.Sel.Name == "mu"
+		}
+		deferred, plain := false, token.NoPos
+		newPos, regPos := token.NoPos, token.NoPos
+		ast.Inspect(fd.Body, func(n ast.Node) bool {
+			switch x := n.(type) {
+			case *ast.DeferStmt:
+				if isMuUnlock(x.Call) {
+					deferred = true
+				}
+				return false
+			case *ast.ExprStmt:
+				if c, isCall := x.X.(*ast.CallExpr); isCall && isMuUnlock(c) && plain == token.NoPos {
+					plain = x.Pos()
+				}
+			case *ast.CallExpr:
+				if sel, isSel := x.Fun.(*ast.SelectorExpr); isSel && sel.Sel.Name == "newStream" {
+					newPos = x.Pos()
+				}
+			case *ast.AssignStmt:
+				if len(x.Lhs) == 1 {
+					if ix, isIx := x.Lhs[0].(*ast.IndexExpr); isIx {
+						if sel, isSel := ix.X.(*ast.SelectorExpr); isSel && sel.Sel.Name == "streams" {
+							regPos = x.Pos()
+						}
+					}
+				}
+			}
+			return true
+		})
+		switch {
+		case newPos != token.NoPos && regPos != token.NoPos && deferred && plain == token.NoPos:
+			openAtomic = "true"
+		case newPos != token.NoPos && regPos != token.NoPos && plain != token.NoPos && newPos < plain && plain < regPos:
+			openAtomic = "false"
+		}
+	}
+	if openAtomic == "" {
+		ok = false
+		openAtomic = "false"
+	}
+	fmt.Fprintf(&b, "Definition h2_client_open_atomic := %s.\n", openAtomic)
 	// --- writeData chunk constant
 	chunk := ""
 	if fd := FindFunc(mf, "MFramer", "writeData"); fd != nil {
